@@ -335,7 +335,22 @@ def world_task(seed, idx, tier, batch):
     return r
 
 
+def clean_links(case):
+    """after shrinking: drop links whose target page no longer exists"""
+    model = PM.build_model(case["tree"])
+    ok = set(PM.flatten(model)) if model else set()
+    for rel, p, isidx in PM.all_pages(case["tree"]):
+        if p.get("links"):
+            p["links"] = [l for l in p["links"] if l[0] in ("media", "url") or l[1] in ok]
+    return case
+
+
 def tree_candidates(case):
+    for desc, c in _tree_candidates(case):
+        yield desc, clean_links(c)
+
+
+def _tree_candidates(case):
     tree = case["tree"]
 
     def paths(d, pre=()):
